@@ -9,7 +9,7 @@ from common import SPEC, ROOT, ToolError, corrupt_trace
 GUARDS = ["GStrictBefore", "GEstBlocks", "GValEst", "GValVersion", "GValStorage", "GTsBeforeScan", "GRewindNew",
           "GRewindConflict", "GMarkEstimate", "GRemoveStale", "GFinStatus", "GFinCursor", "GFinTs", "GFinCarry",
           "GCommitOrder", "GHeadOnly", "GNotifyFin", "GNotifyCom", "GNotifyBatch", "GNotifyCancel", "GKeyLive",
-          "GCommitRelease", "GFallbackStart", "GHeadAtStart", "GResetMasks", "GCreatedWins"]
+          "GCommitRelease", "GFallbackStart", "GHeadAtStart", "GResetMasks", "GCreatedWins", "GNonceReplay"]
 SAFETY = ["TypeOK", "CommitMatchesRef", "CommittedIsPrefix", "CommittedReadsFresh", "FinalOk", "FinalityFresh"]
 TRACE_INVS = ["TypeOK", "CommittedReadsFresh", "FinalityFresh", "CommitMatchesRef"]
 WITNESS_DIR = os.path.join(SPEC, "witness")
@@ -25,6 +25,8 @@ def block_tla(b):
     extra = ""
     if "resetOf" in b:
         extra = ", resetOf |-> [" + ", ".join(f'{l} |-> "{b["resetOf"].get(l, "none")}"' for l in b["locs"]) + "]"
+    if b.get("disable_nonce_check"):
+        extra += ", nonceCheck |-> FALSE"
     return f'[n |-> {b["n"]}, locs |-> {tlc.tla(set(b["locs"]))}, pre |-> {pre}, progs |-> {progs}{extra}]'
 
 
@@ -119,6 +121,25 @@ def witness(ctx, guard, block, invariants=("CommitMatchesRef", "CommittedReadsFr
     return w
 
 
+def goal(ctx, name, block, timeout=1500, regenerate=False, workers=2):
+    """Shortest path of the specification (all guards on) to coverage goal Reach_<name>: a schedule that puts the
+    real code into a state ordinary schedules rarely reach. Cached like the guard witnesses."""
+    os.makedirs(WITNESS_DIR, exist_ok=True)
+    cache = os.path.join(WITNESS_DIR, f"goal_{name}_{block}.json")
+    if os.path.exists(cache) and not regenerate:
+        with open(cache) as f:
+            return json.load(f)
+    dump = ctx.path(f"dump_goal_{name}_{block}.json")
+    r = mc(ctx, [block], f"goal_{name}_{block}", invariants=(f"NotReach_{name}",), expect="any", timeout=timeout, dump=dump, workers=workers)
+    w = {"guard": "goal_" + name, "block": block, "found": not r["ok"], "invariant": r["invariant"] or r["violation"],
+         "depth": len(r["trace_actions"]), "distinct_states": r["distinct"], "guide": []}
+    if not r["ok"] and os.path.exists(dump):
+        w["guide"] = guide_from_dump(dump)
+    with open(cache, "w") as f:
+        json.dump(w, f)
+    return w
+
+
 def replay_witness(ctx, w, prop, also=(), extra_runs=6, workers=2):
     """Replay a witness schedule on the real code (then continue under PCT); monitors decide."""
     if not w["found"]:
@@ -126,6 +147,8 @@ def replay_witness(ctx, w, prop, also=(), extra_runs=6, workers=2):
     r, out, args = controlled(ctx, [w["block"]], extra_runs, workers=workers, policy="guide",
                               extra={"guide": w["guide"]}, tag=f"wit_{w['guard']}_{w['block']}")
     report(ctx, r, args, prop, also)
+    # the guided runs are runs of the real code like any other: each must be a behaviour of the specification
+    validate(ctx, r, out, f"trace_wit_{w['guard']}_{w['block']}", workers=workers)
     return r, out
 
 
@@ -156,14 +179,11 @@ def report(ctx, r, args, prop, also=()):
         ctx.notes["findings_of_other_properties"] = others
     if "fatal" in r:
         f = r["fatal"]
-        if prop in ("C05", "C16", "C17") or "C05" in also:
-            ctx.violation(f"C05: the run cannot make progress: {json.dumps(f['verdict'])}",
-                          {"kind": "sched_run", "args": {k: a for k, a in args.items() if k != "scenarios"},
-                           "scenario": f["scenario"], "schedule": f["schedule"], "events": f["last_events"],
-                           "verdict": f["verdict"]})
-        else:
-            ctx.notes["deadlock_seen"] = f["verdict"]
-            raise ToolError(f"a controlled run deadlocked ({f['verdict']}); that is a C05 finding, this check cannot continue")
+        # a run that cannot make progress never returns a result: every scheduler-level property is void
+        ctx.violation(f"C05: the run cannot make progress (execute() would never return): {json.dumps(f['verdict'])}",
+                      {"kind": "sched_run", "args": {k: a for k, a in args.items() if k != "scenarios"},
+                       "scenario": f["scenario"], "schedule": f["schedule"], "events": f["last_events"],
+                       "verdict": f["verdict"]})
     for s in r["scenarios"]:
         ctx.evaluations += s["runs"]
         ctx.distinct += s["distinct_schedules"]
@@ -175,15 +195,19 @@ def validate(ctx, r, out, name, workers=2):
     """Every recorded run must be a behaviour of Grevm.tla (trace mode), invariants per record."""
     if not r["trace_runs"]:
         return
+    if "fatal" in r:
+        # the harness left the process from the fatal handler: the last run is incomplete (and reported by `report`)
+        with open(out) as f:
+            lines = f.read().splitlines()
+        last = max((i for i, l in enumerate(lines) if '"l":"RESET"' in l.replace(" ", "")), default=0)
+        with open(out, "w") as f:
+            f.write("\n".join(lines[:last]) + ("\n" if last else ""))
+        if not last:
+            return
     c = consts((), workers, trace=True)
     c["Blocks"] = "{}"
     ok, where, tres = ctx.validate_trace("GrevmTrace", out, name, c, invariants=TRACE_INVS, timeout=1500)
-    if not ok:
-        if tres["invariant"]:
-            ctx.violation(f"invariant {tres['invariant']} of Grevm.tla fails on a recorded scheduler run",
-                          {"kind": "sched_trace", "trace": out, "at": where, "signature": None})
-        else:
-            raise ToolError(f"conformance drift: a recorded scheduler run is not a behaviour of Grevm.tla: {where}")
+    ctx.trace_verdict(ok, where, tres, "GrevmTrace", out, c, TRACE_INVS, "Grevm.tla")
     ctx.traces += r["trace_runs"]
     ctx.trace_events += r["trace_events"]
 
@@ -200,3 +224,26 @@ def binding_demo(ctx, out, workers=2):
         if ok:
             raise ToolError(f"binding demonstration failed: trace with {what} was accepted")
     ctx.notes["binding_demo"] = demo
+
+
+def lifecycle(ctx, prop, quick):
+    """rules/Lifecycle.tla: TLC checks the rule's consequences and writes every operation sequence with the expected
+    observables; each is applied transaction by transaction to revm State (must agree with the rule) and to
+    ParallelState (must agree with both)."""
+    cfg = ctx.path("lifecycle.cfg")
+    out = ctx.path("lifecycle_cases.json")
+    tlc.write_cfg(cfg, init="Init", next_="Next", deadlock=False)
+    r = tlc.run(os.path.join(SPEC, "rules", "Lifecycle.tla"), cfg, workers=1, timeout=900, coverage=False, tag=f"{ctx.prop}_lifecycle", env={"OUT": out}, heap="6g")
+    ctx.tlc_runs.append({"name": "lifecycle_rules", "module": "rules/Lifecycle", "states": r["states"], "wall_s": r["wall_s"], "ok": r["ok"], "violation": r["violation"], "invariant": None})
+    if not r["ok"]:
+        raise ToolError("rules/Lifecycle.tla: a consequence of the rule (ASSUME) fails or TLC failed\n" + tlc.tail(r, 20))
+    h = ctx.vh("lifecycle", {"cases": out, "stride": 5 if quick else 1, "offset": ctx.seed % 5 if quick else 0}, timeout=3000)
+    if h["model_mismatch"]:
+        m = h["model_mismatch"][0]
+        raise ToolError(f"rules/Lifecycle.tla disagrees with stock revm State: case {json.dumps(m['case'])[:300]} step {m['step']}: revm [{m['revm_state']}] rule [{m['rule']}]")
+    ctx.evaluations += h["runs"]
+    ctx.notes["lifecycle"] = {"cases": h["cases"], "realised": h["runs"], "transactions": h["steps"]}
+    for v in h["violations"]:
+        ctx.violation(f"{prop}: {v['what']}", {"kind": "lifecycle", "case": v["case"], "step": v["step"]})
+    if len(ctx.samples) < 3:
+        ctx.samples.append(h["sample"])
